@@ -23,6 +23,7 @@ import (
 	"mellium.im/xmlstream"
 	"mellium.im/xmpp"
 	"mellium.im/xmpp/jid"
+	"mellium.im/xmpp/stanza"
 	"mellium.im/xmpp/stream"
 
 	"verifharness/common"
@@ -125,6 +126,10 @@ func Exec(p Prog, t xmlstream.TokenReadEncoder, inv *Invocation) error {
 		return nil
 	case "eof":
 		return io.EOF
+	case "stanzaerr":
+		return stanza.Error{Type: stanza.Cancel, Condition: stanza.BadRequest}
+	case "streamerr":
+		return stream.PolicyViolation
 	}
 	return ErrHandler
 }
@@ -170,6 +175,14 @@ func headerNegotiator(ns string) xmpp.Negotiator {
 // callback.  mk == nil uses the recording handler directly: the k-th invocation
 // executes progs[k] (no steps, nil, when the list is used up).
 func Serve(ns string, local, remote jid.JID, body []byte, progs []Prog, mk func(rec xmpp.Handler) xmpp.Handler) (res Result) {
+	return ServeHook(ns, local, remote, body, progs, mk, nil)
+}
+
+// ServeHook is Serve with a hook that runs on the established session before
+// Serve is called (for instance to start local requests that stay pending);
+// whatever the hook made the session write is not part of Result.Out.  The
+// function the hook returns (if any) runs after Serve returned.
+func ServeHook(ns string, local, remote jid.JID, body []byte, progs []Prog, mk func(rec xmpp.Handler) xmpp.Handler, before func(s *xmpp.Session, out *common.SafeBuffer) func()) (res Result) {
 	in := io.MultiReader(strings.NewReader(Header(ns)), bytes.NewReader(body))
 	out := &common.SafeBuffer{}
 	var state xmpp.SessionState
@@ -196,25 +209,36 @@ func Serve(ns string, local, remote jid.JID, body []byte, progs []Prog, mk func(
 	if mk != nil {
 		h = mk(rec)
 	}
+	var after func()
+	if before != nil {
+		after = before(s, out)
+	}
+	skip := out.Len()
 	done := common.WithTimeout(10*time.Second, func() {
 		res.Panic = common.Recover(func() { res.Err = s.Serve(h) })
 	})
 	if !done {
 		res.Stall = true
 	}
-	res.Out = out.Bytes()
+	if after != nil {
+		after()
+	}
+	res.Out = out.Bytes()[skip:]
 	return res
 }
 
 // ErrClass maps the value returned by Serve to the model's error classes.
 func ErrClass(err error) string {
 	var se stream.Error
+	var ste stanza.Error
 	var syn *xml.SyntaxError
 	switch {
 	case err == nil:
 		return "clean"
 	case errors.As(err, &se):
 		return "se:" + se.Err
+	case errors.As(err, &ste):
+		return "handler"
 	case errors.Is(err, ErrHandler), err == io.ErrUnexpectedEOF, strings.Contains(err.Error(), "received IQ with invalid payload"):
 		return "handler"
 	case errors.As(err, &syn):
